@@ -57,6 +57,9 @@ func loadKnown(path string) ([]KnownFinding, error) {
 type Item struct {
 	Func   string   // function under contract (mode F / site assertions)
 	Kinds  []string // obligation kinds that count for this property ("" = all)
+	// ThoroughOnly: proved in the thorough tier only (slow bit-level arithmetic); the quick tier uses
+	// the function's contract as an assumption and says so
+	ThoroughOnly bool
 	Plugin string   // name of a plug-in obligation generator (mode A)
 	Depth  int
 	Opts   string
@@ -199,6 +202,10 @@ func checkMain(args []string) int {
 		os.RemoveAll(run.SmtDir)
 	}
 	for _, it := range plan.Items {
+		if it.ThoroughOnly && tier != "thorough" {
+			run.Assume["contract of "+it.Func+" (proved in the thorough tier only: slow bit-level arithmetic)"] = true
+			continue
+		}
 		if it.Plugin != "" {
 			plugins[it.Plugin](run, it)
 			continue
